@@ -45,7 +45,8 @@ def execute(chunk):
                 Xv = torch.cat([torch.randint(-3, 4, (Xv.shape[0], X.shape[1] - 1), generator=g).float(),
                                 1000.0 + torch.arange(Xv.shape[0]).float()[:, None]], dim=1)
                 v = torch.zeros(X.shape[1])
-                v[p['dseed'] % (X.shape[1] - 1)] = 1.0
+                # an axis direction need not be +e_k: sign and length of the single non-zero entry matter for the routing
+                v[p['dseed'] % (X.shape[1] - 1)] = [1.0, -1.0, 2.0, -0.5][(p['dseed'] // 7) % 4]
                 kw['fixed_vector'] = v
                 kw['split_method'] = 'fixed_vector'
             try:
@@ -180,6 +181,13 @@ def gen_cases(run):
         cases.append(dict(family='exact-ties', integer=True, n=r.randint(2 * L, 6 * L), d=r.randint(2, 4), L=L, f=f,
                           nsplits=None, refill=r.choice([2, 5, 20]), nval=r.randint(20, 80), val_spread=1.0,
                           method='fixed_vector', task='reg', outputs=1, classes=2, mode='zero_one', stub=True, iters=0,
+                          dseed=r.randint(0, 10 ** 6)))
+    # a node above the sizes at which libraries start to estimate quantiles from subsamples (tens of thousands of rows):
+    # one split at the root, leaf models stubbed
+    for k in range(1 if run.tier == 'quick' else 4):
+        n = r.choice([50_100, 60_001, 75_000])
+        cases.append(dict(family='large-node', n=n, d=3, L=int(n * 0.6), f=[0.0, 0.05][k % 2], nsplits=None, refill=20, nval=200, val_spread=1.0,
+                          method=['random', 'pca'][k % 2], task='reg', outputs=1, classes=2, mode='zero_one', stub=True, iters=0,
                           dseed=r.randint(0, 10 ** 6)))
     return cases
 
